@@ -39,7 +39,7 @@ func c17Bounded(ck *Checker, rep *Report, opts *Options) {
 		"internal/shellparse/zz_verif_rt_test.go": "harness/c17_shellparse_test.go",
 		"xtool/safesplit/zz_verif_rt_test.go":     "harness/c17_safesplit_test.go",
 	}, []string{"./internal/shellparse/", "./xtool/safesplit/"}, "TestZZVerifRoundTrip", []string{"VERIF_C17_K=" + k}, 2,
-		"roundtrip", "quoted form of at most K="+k+" characters over a 10-symbol alphabet (letter, blank, tab, both quotes, backslash, '-', '$', two non-ASCII runes incl. one whose UTF-8 form contains the byte 0xA0); shellparse: both always-quoted and quoted-only-when-needed forms")
+		"roundtrip", "quoted form of at most K="+k+" characters over an 11-symbol alphabet (letter, blank, tab, newline, both quotes, backslash, '-', '$', two non-ASCII runes incl. one whose UTF-8 form contains the byte 0xA0; safesplit: newline and carriage return inside arguments); shellparse: both always-quoted and quoted-only-when-needed forms")
 }
 
 // runBounded runs bounded harness tests injected into /repo packages through
@@ -126,7 +126,7 @@ func boundedKind(tag string) string {
 	if tag == "c10sched" || tag == "c11sched" {
 		return "bounded enumeration of thread schedules of the real functions under a cooperative scheduler (depth-first up to a cap, then random schedules; not a proof)"
 	}
-	if tag == "c06map" {
+	if tag == "c06map" || tag == "c06keys" {
 		return "bounded pseudo-random differential execution of the real functions against Go's own map (not a proof, not exhaustive)"
 	}
 	return "bounded exhaustive execution of the real function (not a proof)"
